@@ -37,7 +37,7 @@ const GenesisHeader = "From Kava Require Import Base.Prelude Base.Dec Model.Swap
 var GenesisWanted = []string{
 	"swap/reimport:ok", "swap/reimport:with-pools", "swap/reimport:two-pools", "swap/reimport:several-depositors-in-a-pool",
 	"swap/reimport:dust-shares", "swap/reimport:empty-store", "swap/reimport:after-pool-deleted",
-	"swap/mutgen:valid=true", "swap/mutgen:valid=false", "swap/mutgen:init:ok",
+	"swap/mutgen:valid=true", "swap/mutgen:valid=false", "swap/mutgen:init:ok", "swap/mutgen:invalid:init:panic",
 }
 
 type GenesisHist struct {
@@ -211,14 +211,23 @@ func (w *kWorld) reimport(mark func(string)) swapReimport {
 
 const nSwapMutations = 15
 
-func (w *kWorld) mutatedGenesis(kind, sel int, mark func(string)) (term string, valid bool, cls Class) {
+// swapGenesisExpect: what GenesisState.Validate and InitGenesis must both say about a perturbed export, stated
+// independently of the model, for the perturbations whose verdict does not depend on the values in the state
+var swapGenesisExpect = map[string]bool{
+	"none": true, "shares-moved-between-depositors": true,
+	"duplicate-pool": false, "duplicate-share-record": false, "share-record-split-in-two": false, "share-record-dropped": false,
+	"pool-record-dropped": false, "share-record-without-pool": false, "pool-id-reversed-or-equal-tokens": false,
+	"pool-id-does-not-match-reserves": false, "share-record-id-reversed": false,
+}
+
+func (w *kWorld) mutatedGenesis(kind, sel int, mark func(string)) (term string, valid bool, cls Class, name string) {
 	bctx, _ := w.ctx.CacheContext()
 	gs := swap.ExportGenesis(bctx, w.sk)
 	gs.PoolRecords = append(swaptypes.PoolRecords(nil), gs.PoolRecords...)
 	gs.ShareRecords = append(swaptypes.ShareRecords(nil), gs.ShareRecords...)
 	gs.Params.AllowedPools = append(swaptypes.AllowedPools(nil), gs.Params.AllowedPools...)
 	np, ns := len(gs.PoolRecords), len(gs.ShareRecords)
-	name := "none"
+	name = "none"
 	one := sdkmath.OneInt()
 	switch kind {
 	case 0:
@@ -362,15 +371,19 @@ func (w *kWorld) mutatedGenesis(kind, sel int, mark func(string)) (term string, 
 	valid = gs.Validate() == nil
 	mark("swap/mutgen:" + name + fmt.Sprintf(":valid=%v", valid))
 	mark(fmt.Sprintf("swap/mutgen:valid=%v", valid))
+	// the real InitGenesis runs on EVERY perturbed genesis, also those Validate refuses (scratch branch,
+	// never written back, panics recovered): InitGenesis is the only gate at chain start
+	cls, _ = Atomically(w.ctx, func(ctx sdk.Context) error {
+		c2, _ := ctx.CacheContext() // never written back
+		WipeStore(c2, w.tApp.GetKVStoreKey(swaptypes.StoreKey))
+		wipeSwapParams(c2, w)
+		swap.InitGenesis(c2, w.sk, gs)
+		return nil
+	})
 	if valid {
-		cls, _ = Atomically(w.ctx, func(ctx sdk.Context) error {
-			c2, _ := ctx.CacheContext() // never written back
-			WipeStore(c2, w.tApp.GetKVStoreKey(swaptypes.StoreKey))
-			wipeSwapParams(c2, w)
-			swap.InitGenesis(c2, w.sk, gs)
-			return nil
-		})
 		mark("swap/mutgen:init:" + cls.String())
+	} else {
+		mark("swap/mutgen:invalid:init:" + cls.String())
 	}
 	return
 }
@@ -443,12 +456,20 @@ func GenesisRun(seed uint64, idx, n int, gen *kGenesis, ops []kOp, explicit bool
 		}
 		done = append(done, op)
 		if op.Kind == "mutgen" {
-			term, valid, cls := w.mutatedGenesis(op.D1, op.D2, mark)
-			v, c := int64(0), int64(-1)
+			term, valid, cls, name := w.mutatedGenesis(op.D1, op.D2, mark)
+			v := int64(0)
 			if valid {
-				v, c = 1, int64(cls)
+				v = 1
 			}
-			steps = append(steps, fmt.Sprintf("(GProbe %s,\n    ObsProbe [%d; %s])", term, v, Zi(c)))
+			steps = append(steps, fmt.Sprintf("(GProbe %s,\n    ObsProbe [%d; %s])", term, v, Zi(int64(cls))))
+			if !valid && cls != ClassPanic && out.Fail == nil {
+				out.Fail = &Failure{Step: i, Predicate: "invalid-genesis-imported:swap:" + name, Signature: "invalid-genesis-imported:swap:" + name,
+					Detail: fmt.Sprintf("GenesisState.Validate refuses this genesis state (perturbation %s of a real export) but InitGenesis on an emptied store imports it: %s", name, term)}
+			}
+			if want, ok := swapGenesisExpect[name]; ok && (want != valid || want != (cls == ClassOk)) && out.Fail == nil {
+				out.Fail = &Failure{Step: i, Predicate: "swap-genesis-verdicts:" + name, Signature: "swap-probe-verdict-" + name,
+					Detail: fmt.Sprintf("perturbation %s of the exported genesis: Validate passes=%v, InitGenesis ok=%v (both expected %v): %s", name, valid, cls == ClassOk, want, term)}
+			}
 			continue
 		}
 		if op.Kind == "reimport" {
